@@ -1,26 +1,29 @@
 # Driver configuration for property C16 (read by /verif/checks_config.py)
 PROP = dict(
         pkg="c16", level="exploration",
-        technique=("stateful PBT (rapid) of the real pruner.Pruner service wired to a real Blockchain as node.New does, "
-                   "differential against an unpruned twin node and the abstract state; virtual clock and event barrier via "
-                   "testing/synctest; crash-image / cancellation fault points at every commit of a prune"),
+        technique=("stateful PBT (rapid) of the real pruner.Pruner service (pruner.New + Run) wired to a real Blockchain as "
+                   "node.New does, and of the history-prune migration, differential against an unpruned twin node and the "
+                   "abstract state; virtual clock and event barrier via testing/synctest; crash-image / cancellation fault "
+                   "points at every commit of a prune; reader between the commits of a prune"),
         level_text=("Exploration with fault points: generated chains, L1-head sequences, configurations and scripts "
-                    "(hundreds per quick run, tens of thousands per thorough run), every Reader/state/event answer compared "
-                    "with an unpruned twin; per probed prune the interruption index k is enumerated (quick: first, last, "
-                    "last-1 and one drawn commit; thorough: every commit). Samples the space; does not prove absence."),
-        rule=("per case, inside a synctest bubble with a virtual clock: config drawn from backend {legacy, trie2} x retained "
-              "{0,1,2,5,1000} x l2HeadsPerPrune {1,3} x target batch size {1 byte, default} x min-age {0, 1h (tick default|1m)} "
-              "x clock offset {0,45m,3h,20h,3y}; 11-22 warm-up blocks then 8-77 steps over store (generated or empty block, "
-              "arrival >= its timestamp, new-head event into the real pruner.Run loop) / L1 head (lagging, equal, ahead; event "
-              "before or after the write) / idle (virtual minutes to hours: min-age ticks) / restart (graceful or not; new "
-              "Blockchain+RetentionFloor+Pruner on the same DB) / reorg above the L1 head / query; a third of the store/L1 "
-              "steps are fault probes (copies of the pre-event DB: uninterrupted reference, crash image after commit k, "
-              "context cancelled at commit k, then restart, check, resume, compare); optional final revert down to the floor, "
-              "attempt below it, re-extension. Non-trivial = a prune deleted >= 1 block and a query, revert or restart "
-              "followed; distinct = distinct SHA-256 of config + rendered script (block hashes, L1 numbers, fault points)."),
+                    "(about a thousand per quick run, tens of thousands per thorough run), every Reader/state/event answer "
+                    "compared with an unpruned twin; per probed prune the interruption index k is enumerated (quick: first, "
+                    "last, last-1 and one drawn commit; thorough: every commit up to 48). Samples the space; does not prove "
+                    "absence."),
+        rule=("TestPropPruning: per case, inside a synctest bubble with a virtual clock: config drawn from backend {legacy, "
+              "trie2} x retained {0,1,2,5,1000} x l2HeadsPerPrune {1,3} x target batch size {1 byte, default} x min-age {0, "
+              "1h (tick default|1m)} x clock offset {0,45m,3h,20h,3y}; a fifth of the cases enable pruning late through the "
+              "history-prune migration; 11-22 warm-up blocks then 8-77 steps over store / L1 head (lagging, equal, ahead; "
+              "event before or after the write) / idle (ticks) / restart (graceful or not) / reorg above the L1 head / query; "
+              "a third of the store/L1 steps are fault probes (crash image after, or cancellation at, commit k of the prune, "
+              "on copies; restart, check, resume, compare with the uninterrupted copy); a reader runs between the commits of "
+              "every prune; optional final revert down to the floor, attempt below it, re-extension. "
+              "TestPropMinAgeAroundReorg: skeleton placing a reorg and fresh replacement blocks next to a just-sampled "
+              "min-age floor. Non-trivial = a prune deleted >= 1 block and a query, revert or restart followed; distinct = "
+              "distinct SHA-256 of config + rendered script (block hashes, L1 numbers, fault points)."),
         assumptions=["the unpruned twin (same backend) and ref.State are the oracles for retained data (C03/C07 check them independently)",
-                     "memory DB + the harness' commit-counting wrapper stand in for Pebble (contract equivalence is C15); a crash image is the DB after a whole batch commit (batch atomicity trusted)",
+                     "memory DB + the harness' commit-counting wrapper (read-through for batches without writes) stand in for Pebble (contract equivalence is C15); a crash image is the DB after a whole batch commit (batch atomicity trusted)",
                      "testing/synctest: the pruner's goroutine is quiescent when synctest.Wait returns; time.Now/tickers are virtual inside the bubble",
-                     "L1 heads recorded are monotone (finalised); reorgs in the script body only undo blocks above the L1 head"],
+                     "L1 heads recorded are monotone (finalised); reorgs in the script body only undo blocks above the L1 head; readers concurrent with a prune are modelled at commit boundaries only"],
         runs=[dict(run="^Test(Prop|Known)")],
     )
